@@ -805,6 +805,11 @@ pub fn judge(id: &str, sc: &Scenario, hash_seeds: usize) -> (Judged, RunResult, 
             let (j, r) = crate::c26::judge_c26(sc);
             (j, r, sc.clone())
         }
+        "C28" if sc.comp.is_some() => {
+            // the component share of C28: custom sections of a component whose modules are instrumented
+            let (j, r) = crate::c26::judge_c26(sc);
+            (j, r, sc.clone())
+        }
         "C25" => {
             let r = run(sc);
             (judge_c25(sc, &r), r, sc.clone())
